@@ -648,6 +648,7 @@ func Replay(path string) int {
 		fmt.Fprintln(os.Stderr, err)
 		return 2
 	}
+	overlay = restrictOverlay(overlay, all, propOf(shortName(c.Harness)))
 	rel := ""
 	for _, h := range all {
 		if h.Name == shortName(c.Harness) {
